@@ -131,7 +131,7 @@ struct rtr_bgpsec {
 	/** Count of Signature Segments (do not edit manually). */
 	uint16_t sigs_len;
 	/** Count of Secure Path Segments (do not edit manually). */
-	uint8_t path_len;
+	uint16_t path_len;
 	struct rtr_bgpsec_nlri *nlri;
 	/** Reference to the Signature Segments. */
 	struct rtr_signature_seg *sigs;
